@@ -46,14 +46,20 @@ def specialCase (sc : Str) : TokCase :=
 
 /-- case decided by the scan: the first brace-level-0 letter (a level-0 token is one
 character: `charCase` of it; a letter without case makes the token caseless), or the first
-special character (level-1 token starting with a backslash) if that comes first; else caseless. -/
-def tokCaseOf : List Tok → TokCase
-  | [] => .caseless
-  | (t, l) :: r =>
+special character if that comes first — the level-1 token starting with a backslash that directly
+follows the token of the brace opening its group (`afterOpen`; a backslash further inside an
+ordinary group is no special character, the group is passed over: repair C04-3); else caseless.
+`Props/C04.lean` (`C04_case_bibtex_partial`) shows that this is the scanner-free rule `tokenCaseBibtex`
+below on every token within the scanner's nesting limit. -/
+def tokCaseFrom : Bool → List Tok → TokCase
+  | _, [] => .caseless
+  | afterOpen, (t, l) :: r =>
     if l = 0 ∧ t ≠ [] ∧ t.all isAlphaN then
       (if t.all isUpperN then .upper else if t.all isLowerN then .lower else .caseless)
-    else if l = 1 ∧ startsWithBackslash t then specialCase t
-    else tokCaseOf r
+    else if l = 1 ∧ startsWithBackslash t ∧ afterOpen = true then specialCase t
+    else tokCaseFrom (decide (t = ['{'] ∧ l = 1)) r
+
+def tokCaseOf (toks : List Tok) : TokCase := tokCaseFrom false toks
 
 /-- The case of a token.  A token whose first character is cased has that case, whatever
 follows (for a letter this is what the scan gives as well, `Names.tokenCase_eq_scan`; a cased
@@ -184,7 +190,7 @@ bibtex.web (§§ 397–401 `von_token_found`) is restated here as ONE pass over 
 brace counter and nothing else: at brace level 0 a letter decides; a `{` at level 0 that is
 immediately followed by a backslash starts a special character, which decides (`specialCase` of its
 text up to the matching `}`); any other group is skipped, whatever it contains.
-`Props/C04.lean` (`C04_case_bibtex_partial`, `C04_case_bibtex_neg`) says where `tokenCase` agrees. -/
+`Props/C04.lean` (`C04_case_bibtex_partial`): `tokenCase` agrees on every token within the nesting limit. -/
 
 /-- the text of a special character: everything up to the brace that closes it (`k` = braces open,
 the one that started it included); an unclosed one extends to the end -/
@@ -206,6 +212,12 @@ def caseBibtex : Nat → Str → TokCase
     else if d = 0 ∧ isAlphaN c then charCase c
     else caseBibtex d r
 
+/-- the token starts with a cased character (upper or lower case) -/
+def firstCased (tok : Str) : Bool :=
+  match tok.head? with
+  | some c => isUpperN c || isLowerN c
+  | none => false
+
 /-- the case of a token, scanner-free: a cased first character decides (as in `tokenCase`); else
 the first brace-level-0 letter or special character -/
 def tokenCaseBibtex (tok : Str) : TokCase :=
@@ -214,15 +226,47 @@ def tokenCaseBibtex (tok : Str) : TokCase :=
   | some .lower => .lower
   | _ => caseBibtex 0 tok
 
-/-- no backslash stands at brace level 1 inside an ORDINARY group (one that does not start with a
-backslash) before the case of the token is decided.  pybtex's scanner hands such a backslash out as a
-level-1 token starting with a backslash, which `is_von_name` takes for a special character. -/
-def plainGroups : Nat → Str → Bool
-  | _, [] => true
-  | d, c :: r =>
-    if c = '{' then (if d = 0 ∧ r.head? = some '\\' then true else plainGroups (d + 1) r)
-    else if c = '}' then plainGroups (d - 1) r
-    else if d = 0 ∧ isAlphaN c then true
-    else !(d = 1 ∧ c = '\\') && plainGroups d r
+/-! ### the whole split with the scanner-free case rule
+
+`split` above, with the test "the token is lower-case" as a parameter; `splitBibtex` uses the
+scanner-free rule of bibtex.web (`tokenCaseBibtex`).  `Props/C04.lean` (`C04_matches_bibtex_rule`):
+the model of `Person._parse_string` equals `splitBibtex` on every name whose case-deciding tokens
+are within the nesting limit. -/
+
+def vonLastBy (low : Str → Bool) (ts : List Str) : List Str × List Str :=
+  match lastIdx low ts.dropLast with
+  | some i => (ts.take (i + 1), ts.drop (i + 1))
+  | none => ([], ts)
+
+def splitBy (low : Str → Bool) (name : Str) : Person × Bool :=
+  let parts0 := splitTex .comma name
+  let tooMany := decide (parts0.length > 3)
+  match parts0 with
+  | [] => ({}, tooMany)
+  | [_] =>
+    let ts := splitTex .space name
+    match ts.findIdx? low with
+    | none =>
+      let first := ts.dropLast
+      (({ first := first.take 1, middle := first.drop 1, last := ts.drop (ts.length - 1) } : Person), tooMany)
+    | some i0 =>
+      let first := ts.take i0
+      let vl := vonLastBy low (ts.drop i0)
+      (({ first := first.take 1, middle := first.drop 1, prelast := vl.1, last := vl.2 } : Person), tooMany)
+  | [a, b] =>
+    let vl := vonLastBy low (splitTex .space a)
+    let first := splitTex .space b
+    ({ first := first.take 1, middle := first.drop 1, prelast := vl.1, last := vl.2 }, tooMany)
+  | a :: b :: rest =>
+    let vl := vonLastBy low (splitTex .space a)
+    let first := splitTex .space (joinWith [' '] rest)
+    ({ first := first.take 1, middle := first.drop 1, prelast := vl.1, last := vl.2,
+       lineage := splitTex .space b }, tooMany)
+
+/-- "the token is lower-case" by the scanner-free rule -/
+def isLowBibtex (tok : Str) : Bool := tokenCaseBibtex tok = .lower
+
+/-- the split of a stripped name with the case of every token decided by the scanner-free rule -/
+def splitBibtex (name : Str) : Person × Bool := splitBy isLowBibtex name
 
 end Pybtex.Spec
